@@ -76,6 +76,10 @@ def definition_snapshot(defn, *, skip_namespace=False):
         "containers": tuple((k, snapshot(v, _seen=seen)) for k, v in defn.containers.items()),
         "meta": tuple((k, snapshot(getattr(defn, k))) for k in ("root_container_name", "space_system_name", "validation_status", "xtce_version", "date",
                                                                  "ns", "xtce_schema_uri", "xtce_ns_prefix") if k not in skip),
+        # anything else that lives on the definition object (state a parser might leave behind)
+        "other_attributes": tuple((k, snapshot(v, _depth=50)) for k, v in sorted(vars(defn).items())
+                                  if k not in ("parameter_types", "parameters", "containers", "root_container_name", "space_system_name", "validation_status",
+                                               "xtce_version", "date", "ns", "xtce_schema_uri", "xtce_ns_prefix")),
     }
 
 
